@@ -3,7 +3,7 @@
    [dur_decode_pinned], [hex2rgb_pinned] mirror the pinned code).  Strings are lists of code points. *)
 From Coq Require Import List ZArith NArith Reals. Import ListNotations.
 From Flocq Require Import Core.
-Require Import Codec Codecproof CodecDurproof CodecDateproof CodecColorproof CodecFloat Gen_Css Typed CodecUnit CodecUnitproof.
+Require Import Codec Codecproof CodecDurproof CodecDateproof CodecIsoproof CodecColorproof CodecFloat Gen_Css Typed CodecUnit CodecUnitproof.
 
 (* ---------------------------------------------------------------- Duration *)
 (* decode inverts encode on every whole-second duration, either sign, no bound *)
@@ -91,6 +91,22 @@ Example datetime_example :
   valid_dt d = true /\ datetime_encode d = [50;48;50;52;45;48;50;45;50;57;84;50;51;58;53;57;58;53;57;46;49;50;51;48;48;48;90]%N.
 Proof. split; reflexivity. Qed.
 
+(* repaired Date.decode / DateTime.decode (fixes/F73: anchored regular expression before fromisoformat): a value is returned exactly for
+   the strings of the ODF date / dateTime forms ([iso_denotes]: YYYY-MM-DD, or YYYY-MM-DDTHH:MM:SS[.f+][Z|+-HH:MM[:SS[.f+]]] with calendar,
+   clock and offset ranges), and it is the value the string denotes (fraction read to the microsecond) *)
+Theorem datetime_decode_sound : forall t d, datetime_decode t = Some d -> iso_denotes t d.
+Proof. exact parse_iso_sound. Qed.
+Print Assumptions datetime_decode_sound.
+Theorem datetime_decode_complete : forall t d, iso_denotes t d -> datetime_decode t = Some d.
+Proof. exact parse_iso_complete. Qed.
+Print Assumptions datetime_decode_complete.
+Theorem date_decode_sound : forall t d, date_decode t = Some d -> iso_denotes t d.
+Proof. exact parse_iso_sound. Qed.
+Print Assumptions date_decode_sound.
+Example iso_example : iso_denotes [50;48;50;52;45;48;49;45;51;49;84;49;48;58;48;48;58;48;48;46;53;43;48;53;58;51;48]%N   (* 2024-01-31T10:00:00.5+05:30 *)
+                                  (mkdt 2024 1 31 10 0 0 500000 (Some 19800000000%Z)).
+Proof. apply parse_iso_sound. reflexivity. Qed.
+
 (* ---------------------------------------------------------------- Boolean *)
 Theorem bool_roundtrip : forall b : bool, bool_decode (bool_encode b) = Some b /\ bool_lexical (bool_encode b) = true.
 Proof. exact bool_roundtrip_lemma. Qed.
@@ -98,6 +114,14 @@ Print Assumptions bool_roundtrip.
 Theorem bool_decode_sound : forall t b, bool_decode t = Some b -> t = bool_encode b.
 Proof. exact bool_decode_sound_lemma. Qed.
 Print Assumptions bool_decode_sound.
+
+(* Boolean.encode on its whole signature (bool, str of any case, anything else): what it returns is true|false and decodes to the
+   boolean the argument denotes *)
+Theorem bool_encode_any_thm : forall i t, bool_encode_any i = Some t ->
+  bool_lexical t = true /\ exists b, bool_decode t = Some b /\ t = bool_encode b /\
+    match i with BBool b' => b' = b | BStr s => lower_str s = bool_encode b | BOther => False end.
+Proof. exact bool_encode_any_lemma. Qed.
+Print Assumptions bool_encode_any_thm.
 
 (* ---------------------------------------------------------------- colours *)
 (* all 2^24 colours (a sweep over the 256 values of one channel, lifted to three channels) *)
@@ -127,6 +151,22 @@ Theorem hex_decode_sound_refuted : hex2rgb_pinned w_arabic_zeros = Some (0, 0, 0
 Proof. exact hex2rgb_pinned_unsound. Qed.
 Print Assumptions hex_decode_sound_refuted.
 
+(* rgb2hex of a name, for ANY table: what the table says, in #RRGGBB *)
+Theorem rgb2hex_names : forall tbl name h, rgb2hex_name tbl name = Some h ->
+  exists r g b, lookup (map ascii_lower name) tbl = Some (r, g, b) /\ color_lexical h = true /\ hex2rgb h = Some (Z.to_N r, Z.to_N g, Z.to_N b).
+Proof. exact rgb2hex_name_lemma. Qed.
+Print Assumptions rgb2hex_names.
+(* hexa_color on every input form (None, tuples of any length, names, blank, '#...' strings, anything else): whenever a string is
+   returned for an input that is not a malformed '#...' string, it is #rrggbb and reads back as the colour the input denotes *)
+Theorem hexa_color_thm : forall tbl i h, hexa_color tbl i = Some (Some h) -> hexa_ok i = true ->
+  color_lexical h = true /\ hexa_denotes tbl i = hex2rgb h /\ exists rgb, hex2rgb h = Some rgb.
+Proof. exact hexa_color_lemma. Qed.
+Print Assumptions hexa_color_thm.
+(* ... and a malformed '#...' string is handed back unchanged (pinned by the test-suite with "#f00"): known finding *)
+Theorem hexa_color_lexical_refuted : hexa_color css3_colormap (HStr [35;102;48;48]%N) = Some (Some [35;102;48;48]%N) /\ color_lexical [35;102;48;48]%N = false.
+Proof. exact hexa_color_passthrough. Qed.
+Print Assumptions hexa_color_lexical_refuted.
+
 (* ---------------------------------------------------------------- lengths (Unit) *)
 (* repaired Unit (fixes/F70): str then parse is the identity on every length without exponent, any sign, any unit of letters *)
 Theorem unit_roundtrip : forall (d : dec) (u : str), (dexp d <= 0)%Z -> u <> [] -> forallb is_letter u = true ->
@@ -141,6 +181,16 @@ Theorem unit_roundtrip_refuted :
   unit_parse_pinned (unit_str_pinned (mkdec false 1 5) s_cm) = Some (mkdec false 15 0, [69;43;99;109]%N).
 Proof. exact unit_pinned_unsound. Qed.
 Print Assumptions unit_roundtrip_refuted.
+
+(* Unit.convert("px", dpi) is the truncation toward zero of value * dpi (inches) and of value * dpi * 100 / 254 (centimetres) *)
+Theorem unit_convert_in : forall d dpi px, unit_convert_px d s_in dpi = Some px -> (dexp d <= 0)%Z ->
+  px = Z.quot (dec_signed_coef d * dpi) (10 ^ (- dexp d)).
+Proof. exact unit_convert_in_lemma. Qed.
+Print Assumptions unit_convert_in.
+Theorem unit_convert_cm : forall d dpi px, unit_convert_px d s_cm dpi = Some px -> (dexp d <= 0)%Z ->
+  px = Z.quot (dec_signed_coef d * dpi * 100) (254 * 10 ^ (- dexp d)).
+Proof. exact unit_convert_cm_lemma. Qed.
+Print Assumptions unit_convert_cm.
 
 (* ---------------------------------------------------------------- the property at full strength *)
 Definition C18_full : Prop :=
